@@ -1,4 +1,4 @@
-import Eliot.Proofs.Testing
+import Eliot.Proofs.TestingSpec
 import Eliot.Properties.C09
 /-!
 # C17 — test helpers reconstruct the same action tree as the parser
@@ -21,129 +21,50 @@ task's tree, so the entries of `of_type` (sub-trees of those, `preorderActions`)
 the parser builds from the same messages.
 
 The assert-helper and `LoggedMessage.of_type` theorems hold for *every* message list.
+
+Extension (`PInterleaving`, `of_type_any_order`): when one logger sees a remote continuation after
+later siblings of the reserved position, a task's messages are no longer in level order.  For every
+per-task *permutation* the entries are still one per started action, in emission order of the start
+messages, each with its own start/end message and exactly its direct children, now ordered by
+emission (`toLoggedIn`), i.e. the parser's tree up to the order of children (`Sim`).
 -/
 namespace PM.C17
 open PM PM.Testing
 
-/-- `msgs` is an interleaving of the message lists of the tasks of `ts`, each in its own order. -/
-structure Interleaving (msgs : List PMsg) (ts : Spec) : Prop where
-  cover : ∀ m ∈ msgs, ∃ e ∈ ts, m.uuid = e.1
-  order : ∀ e ∈ ts, msgs.filter (fun m => m.uuid == e.1) = tmsgs e.1 e.2
+/-! ### the concrete instance used by the non-vacuity examples
+Three tasks interleaved in one logger: `u` (an action `a` that succeeds, with a message, a *failed*
+same-typed child action `a` at `[3]` — containing a message and a grand-child `b` — and another
+message), `v` (an action `b` with a child `a`; same levels as in `u`), `w` (a one-message task). -/
+def A2 : Tree := .node "b" 4 5 true .nil
+def A1 : Tree := .node "a" 2 6 false (.cons (.leaf 3) (.cons A2 .nil))
+def A0 : Tree := .node "a" 0 8 true (.cons (.leaf 1) (.cons A1 (.cons (.leaf 7) .nil)))
+def B1 : Tree := .node "a" 11 12 true .nil
+def B0 : Tree := .node "b" 10 13 true (.cons B1 .nil)
+def exSpec : Spec := [("u", A0), ("v", B0), ("w", .leaf 20)]
+def exMsgs : List PMsg :=
+  [startMsg "u" [] "a" 0, leafMsg "u" [2] 1, startMsg "v" [] "b" 10, startMsg "u" [3] "a" 2,
+   leafMsg "u" [3,2] 3, leafMsg "w" [1] 20, startMsg "v" [2] "a" 11, startMsg "u" [3,3] "b" 4,
+   endMsg "u" [3,3] "b" 5 true 2, endMsg "v" [2] "a" 12 true 2, endMsg "u" [3] "a" 6 false 4,
+   leafMsg "u" [4] 7, endMsg "v" [] "b" 13 true 3, endMsg "u" [] "a" 8 true 5]
+def exInfo : Nat → Info
+  | 0 => { fields := [("action_type", "a"), ("x", "1"), ("y", "2")] }
+  | 8 => { fields := [("action_type", "a"), ("r", "ok")] }
+  | 2 => { fields := [("action_type", "a"), ("x", "9")] }
+  | 1 => { mtype := some "m1", fields := [("message_type", "m1"), ("k", "5")] }
+  | 3 => { mtype := some "m2", fields := [("message_type", "m2")] }
+  | 7 => { mtype := some "m1", fields := [("message_type", "m1"), ("k", "6")] }
+  | 20 => { mtype := some "m2", fields := [("message_type", "m2"), ("k", "5")] }
+  | _ => {}
+theorem exInfo_dicts : ∀ b, ((exInfo b).fields.map (·.1)).Nodup := by
+  intro b; unfold exInfo; split <;> decide
+/-- a wide action: child number 0 is an action at `[2]`, child number 19 a message at `[21]` -/
+def leaves : Nat → Nat → Forest
+  | 0, _ => .nil
+  | n+1, b => .cons (.leaf b) (leaves n (b+1))
+def wide : Tree := .node "a" 0 100 true (.cons (.node "a" 1 2 true .nil) (leaves 19 3))
 
-/-- what a whole task stands for: a `LoggedAction`, or a `LoggedMessage` for a one-message task -/
-def rootLogged (u : String) : Tree → LItem
-  | .leaf b => .msg (leafMsg u [1] b)
-  | .node a sb eb ok kids => toLogged u (.node a sb eb ok kids) []
-
-/-- the `LoggedAction`s of all actions of task `(u, t)`, in pre-order (parents first, children in
-level order) -/
-def preorderActions (u : String) : Tree → List LItem
-  | .leaf _ => []
-  | .node a sb eb ok kids => ((pre (.node a sb eb ok kids) []).filter (·.1.isNode)).map (toLoggedP u)
-
-theorem isAct_toLoggedP (u : String) (p : Tree × Level) : (toLoggedP u p).isAct = p.1.isNode := by
-  obtain ⟨t, lvl⟩ := p
-  cases t <;> simp [toLoggedP, toLogged, LItem.isAct, Tree.isNode]
-
-theorem actions_eq_pre (u : String) (t : Tree) (lvl : Level) :
-    (toLogged u t lvl).actions = ((pre t lvl).filter (·.1.isNode)).map (toLoggedP u) := by
-  unfold LItem.actions
-  rw [self_desc_eq_pre, List.filter_map]
-  congr 1
-  apply List.filter_congr
-  intro p _
-  exact isAct_toLoggedP u p
-
-theorem preorderActions_eq (u : String) (t : Tree) : preorderActions u t = (rootLogged u t).actions := by
-  cases t with
-  | leaf b => simp [preorderActions, rootLogged, LItem.actions, LItem.descendants, LItem.isAct]
-  | node a sb eb ok kids => simp only [preorderActions, rootLogged, actions_eq_pre]
-
-theorem Interleaving.root {msgs : List PMsg} {ts : Spec} (hI : Interleaving msgs ts) {u : String}
-    {a : String} {sb eb : Nat} {ok : Bool} {kids : Forest} (he : (u, Tree.node a sb eb ok kids) ∈ ts) :
-    OCtx msgs u (.node a sb eb ok kids) [] := by
-  have := hI.order _ he
-  unfold OCtx
-  rw [show (Under u [] : PMsg → Bool) = fun m => m.uuid == u from by funext m; simp [Under]]
-  exact this
-
-theorem Interleaving.mem_tmsgs {msgs : List PMsg} {ts : Spec} (hI : Interleaving msgs ts) {m : PMsg}
-    (hm : m ∈ msgs) : ∃ e ∈ ts, m.uuid = e.1 ∧ m ∈ tmsgs e.1 e.2 := by
-  obtain ⟨e, he, hu⟩ := hI.cover m hm
-  refine ⟨e, he, hu, ?_⟩
-  rw [← hI.order e he]
-  exact List.mem_filter.mpr ⟨hm, by simp [hu]⟩
-
-/-- every started message of an interleaving starts a spec action in ordered context -/
-theorem Interleaving.started {msgs : List PMsg} {ts : Spec} (hI : Interleaving msgs ts) {m : PMsg}
-    (hm : m ∈ msgs) (hst : m.status = some "started") :
-    ∃ u lvl a sb eb ok kids, OCtx msgs u (.node a sb eb ok kids) lvl ∧ m = startMsg u lvl a sb := by
-  obtain ⟨⟨u, t⟩, he, _, hmem⟩ := hI.mem_tmsgs hm
-  cases t with
-  | leaf b =>
-    simp only [tmsgs, List.mem_cons, List.not_mem_nil, or_false] at hmem
-    subst hmem; simp [leafMsg] at hst
-  | node a sb eb ok kids =>
-    obtain ⟨lvl', a', sb', eb', ok', kids', h1, h2⟩ :=
-      started_in_tree u _ msgs [] (hI.root he) m hmem hst
-    exact ⟨u, lvl', a', sb', eb', ok', kids', h1, h2⟩
-
-theorem filter_map_split {α β} (f : α → β) (p q : α → Bool) (r : β → Bool) : ∀ (L : List α),
-    (∀ m ∈ L, p m = true → r (f m) = q m) →
-    (L.filter (fun m => q m && p m)).map f = ((L.filter p).map f).filter r
-  | [], _ => rfl
-  | m :: L, h => by
-    have ih := filter_map_split f p q r L (fun x hx => h x (List.mem_cons_of_mem _ hx))
-    cases hp : p m with
-    | false => simp [List.filter_cons, hp, ih]
-    | true =>
-      have := h m List.mem_cons_self hp
-      cases hq : q m <;> simp [List.filter_cons, hp, hq, ih, this ▸ hq]
-
-/-- core of the `of_type` theorems -/
-theorem ofType_core {msgs : List PMsg} {ts : Spec} (hI : Interleaving msgs ts) (ty : String) :
-    ofType msgs ty = .ok ((msgs.filter (isStartOf ty)).map (actOf msgs)) ∧
-    (∀ m ∈ msgs, isStart m = true → (actOf msgs m).first = m ∧ (actOf msgs m).isAct = true ∧
-        (actOf msgs m).hasType ty = (m.atype == some ty)) ∧
-    (∀ e ∈ ts, ((tmsgs e.1 e.2).filter (isStartOf ty)).map (actOf msgs) =
-        (preorderActions e.1 e.2).filter (LItem.hasType ty)) := by
-  have hpt : ∀ m ∈ msgs, isStart m = true → (actOf msgs m).first = m ∧ (actOf msgs m).isAct = true ∧
-        (actOf msgs m).hasType ty = (m.atype == some ty) := by
-    intro m hm hs
-    obtain ⟨u, lvl, a, sb, eb, ok, kids, hctx, rfl⟩ := hI.started hm (by simpa [isStart] using hs)
-    rw [actOf_node hctx]
-    simp [toLogged, LItem.first, LItem.isAct, LItem.hasType]
-  refine ⟨?_, hpt, ?_⟩
-  · apply ofTypeGo_ok
-    · intro m hm hs
-      have hst : m.status = some "started" := by
-        simp only [isStartOf, Bool.and_eq_true, beq_iff_eq] at hs; exact hs.2
-      obtain ⟨u, lvl, a, sb, eb, ok, kids, hctx, rfl⟩ := hI.started hm hst
-      exact ⟨_, fromMessages_node hctx⟩
-    · intro m hm hty
-      obtain ⟨⟨u, t⟩, _, _, hmem⟩ := hI.mem_tmsgs hm
-      have hsh : m.Shaped u := by
-        cases t with
-        | leaf b =>
-          simp only [tmsgs, List.mem_cons, List.not_mem_nil, or_false] at hmem
-          subst hmem; simp [PMsg.Shaped, leafMsg]
-        | node a sb eb ok kids => exact Tree.msgs_shape u _ [] m hmem
-      rcases hsh.2 with h | h
-      · rw [hty] at h; cases h
-      · intro hn; rw [hn] at h; simp at h
-  · intro e he
-    obtain ⟨u, t⟩ := e
-    cases t with
-    | leaf b => simp [tmsgs, isStartOf, leafMsg, preorderActions]
-    | node a sb eb ok kids =>
-      have hctx := hI.root he
-      have hsub : ∀ m ∈ tmsgs u (.node a sb eb ok kids), m ∈ msgs := by
-        intro m hm; rw [← hI.order _ he] at hm; exact (List.mem_filter.mp hm).1
-      have := filter_map_split (actOf msgs) isStart (fun m => m.atype == some ty) (LItem.hasType ty)
-        (tmsgs u (.node a sb eb ok kids)) (fun m hm hs => (hpt m (hsub m hm) hs).2.2)
-      rw [show (fun m : PMsg => (m.atype == some ty) && isStart m) = isStartOf ty from rfl] at this
-      rw [this]
-      simp only [tmsgs, starts_tree u _ msgs [] hctx, preorderActions, actions_eq_pre]
+example : Interleaving exMsgs exSpec ∧ exSpec.WF ∧ exMsgs ≠ exSpec.msgs :=
+  ⟨⟨by decide, by decide⟩, by simp [Spec.WF, exSpec], by decide⟩
 
 /-- **of_type_eq_parser_subtrees** (every interleaving).  `of_type` raises nothing and returns:
 one entry per started message of the type, in emission order (`first` of the i-th entry is the i-th
@@ -183,6 +104,23 @@ theorem of_type_eq_parser_subtrees {msgs : List PMsg} {ts : Spec} (hI : Interlea
       simp [Function.comp, (hpt m hm hs').1, hs]
     · simp [Function.comp, hs]
 
+/- non-vacuity: nested, a same-typed descendant (`A1` inside `A0`), a failed action, three tasks
+interleaved; entries in emission order of their start messages (bodies 0, 2, 11), not mixing the
+equal levels of `u` and `v`. -/
+example : ofType exMsgs "a" = .ok [toLogged "u" A0 [], toLogged "u" A1 [3], toLogged "v" B1 [2]] := by rfl
+example : ofType exMsgs "b" = .ok [toLogged "v" B0 [], toLogged "u" A2 [3, 3]] := by rfl
+example : (exMsgs.filter (isStartOf "a")).map (·.body) = [0, 2, 11] := by decide
+example : (preorderActions "u" A0).filter (LItem.hasType "a") = [toLogged "u" A0 [], toLogged "u" A1 [3]] := by rfl
+example : toLogged "u" A1 [3] = .act (startMsg "u" [3] "a" 2) (endMsg "u" [3] "a" 6 false 4)
+    [.msg (leafMsg "u" [3, 2] 3), .act (startMsg "u" [3, 3] "b" 4) (endMsg "u" [3, 3] "b" 5 true 2) []] := by rfl
+example : (toLogged "u" A1 [3]).succeeded? = some false ∧ (toLogged "u" A0 []).succeeded? = some true := by decide
+/- level lists, not their renderings: the child action at `[2]` does not pick up the message at `[21]` -/
+example : fromMessages "t" [2, 1] (Tree.msgs "t" wide []) =
+    .ok (.act (startMsg "t" [2] "a" 1) (endMsg "t" [2] "a" 2 true 2) []) := by rfl
+/- the error branches exist: an unfinished action / a level that starts nothing -/
+example : ofType exMsgs.dropLast "a" = .error .missingEnd := by rfl
+example : fromMessages "u" [2, 1] exMsgs = .error .missingStart := by rfl
+
 /-- the concatenation of the tasks' message lists is an interleaving -/
 theorem interleaving_concat {ts : Spec} (hwf : ts.WF) : Interleaving ts.msgs ts := by
   refine ⟨?_, ?_⟩
@@ -208,7 +146,8 @@ theorem interleaving_concat {ts : Spec} (hwf : ts.WF) : Interleaving ts.msgs ts 
         · intro m hm
           simp [tmsgs_uuid e.1 e.2 m hm]
       · rw [filter_none]
-        · simpa using ih hwf.2 e h
+        · have := ih hwf.2 e h
+          simpa [Spec.msgs] using this
         · intro m hm
           apply beq_false_of_ne
           intro heq
@@ -233,12 +172,14 @@ theorem of_type_concat {ts : Spec} (hwf : ts.WF) (ty : String) :
       rw [htask e (hsub e List.mem_cons_self), ih (fun x hx => hsub x (List.mem_cons_of_mem _ hx))]
   exact this ts (fun _ h => h)
 
+example : ofType exSpec.msgs "a" = .ok [toLogged "u" A0 [], toLogged "u" A1 [3], toLogged "v" B1 [2]] := by rfl
+
 /-- **the same tree the parser builds**: fed the same message list, `parse_stream` raises nothing and
 yields every task complete; forgetting the trie keys (`nodeLogged?`: same start message, same end
 message, children in key = level order), the root node of task `(u, t)` is `rootLogged u t`, whose
 action sub-trees in pre-order are `preorderActions u t` (`preorderActions_eq`) — the entries
 `of_type` returns (`of_type_eq_parser_subtrees`). -/
-theorem parser_builds_same {msgs : List PMsg} {ts : Spec} (hwf : ts.WF) (hI : Interleaving msgs ts) :
+theorem parser_builds_same {msgs : List PMsg} {ts : Spec} (hwf : ts.WF) (hI : PInterleaving msgs ts) :
     ∃ out, parseStream msgs = .ok out ∧
       ∀ e ∈ ts, ∃ T n, (e.1, T) ∈ out ∧ T.isComplete = true ∧ T.root = some n ∧
         nodeLogged? n = some (rootLogged e.1 e.2) := by
@@ -250,8 +191,8 @@ theorem parser_builds_same {msgs : List PMsg} {ts : Spec} (hwf : ts.WF) (hI : In
     apply nodup_of_filters
     intro m hm
     obtain ⟨e, he, hu⟩ := hI.cover m hm
-    rw [hu, hI.order e he]
-    exact tmsgs_nodup e.1 e.2
+    rw [hu]
+    exact (hI.perm e he).nodup_iff.mpr (tmsgs_nodup e.1 e.2)
   obtain ⟨d, p, _, hparse, hok, _, _⟩ := C09.feed_ok hwf msgs hnd hin
   refine ⟨_, hparse, ?_⟩
   intro e he
@@ -259,12 +200,10 @@ theorem parser_builds_same {msgs : List PMsg} {ts : Spec} (hwf : ts.WF) (hI : In
   have hall : allArrived (C09.arrived msgs) u t := by
     intro m hm
     simp only [C09.arrived, List.contains_iff_mem]
-    have := hI.order _ he
-    rw [← this] at hm
-    exact (List.mem_filter.mp hm).1
+    exact (List.mem_filter.mp ((hI.perm _ he).mem_iff.mpr hm)).1
   have hsome : someArrived (C09.arrived msgs) u t := by
     cases t with
-    | leaf b => exact ⟨_, by simp [tmsgs], hall _ (by simp [tmsgs])⟩
+    | leaf b => exact ⟨leafMsg u [1] b, by simp [tmsgs], hall _ (by simp [tmsgs])⟩
     | node a sb eb ok kids =>
       exact ⟨startMsg u [] a sb, by simp [tmsgs, Tree.msgs], hall _ (by simp [tmsgs, Tree.msgs])⟩
   obtain ⟨T, hT⟩ := hok.compl u t he hsome
@@ -272,7 +211,7 @@ theorem parser_builds_same {msgs : List PMsg} {ts : Spec} (hwf : ts.WF) (hI : In
   have := hwf.unique he ht'; subst this
   cases t with
   | leaf b =>
-    exact ⟨T, _, hT, hc.mpr hall, hI'.1, by simp [nodeLogged?, rootLogged]⟩
+    exact ⟨T, .msg (leafMsg u [1] b), hT, hc.mpr hall, hI'.1, by simp [nodeLogged?, rootLogged]⟩
   | node a sb eb ok kids =>
     have hI'' : TaskOK (C09.arrived msgs) u (.node a sb eb ok kids) T := hI'
     obtain ⟨n, hn, hl⟩ := view_logged u (.node a sb eb ok kids) []
@@ -280,13 +219,17 @@ theorem parser_builds_same {msgs : List PMsg} {ts : Spec} (hwf : ts.WF) (hI : In
     rw [hI''.root, ← hn]
     exact Tree.view_congr _ _ u _ [] (fun m hm => hall m hm)
 
+example : (parseStream exMsgs).toOption.map (·.map fun e => (e.1, e.2.isComplete, e.2.root.bind nodeLogged?)) =
+    some [("w", true, some (rootLogged "w" (.leaf 20))), ("v", true, some (rootLogged "v" B0)),
+          ("u", true, some (rootLogged "u" A0))] := by rfl
+
 /-- one task alone, through `PM.C09.reconstruct`: the messages of task `u` inside any interleaving,
 in the order they have there, parse to exactly the tree whose `LoggedAction` is what the helpers
 return for the task's root action. -/
 theorem parser_task_same {msgs : List PMsg} {ts : Spec} (hI : Interleaving msgs ts) {u : String}
     {a : String} {sb eb : Nat} {ok : Bool} {kids : Forest} (he : (u, Tree.node a sb eb ok kids) ∈ ts) :
     ∃ T n, parseStream (msgs.filter fun m => m.uuid == u) = .ok [(u, T)] ∧ T.isComplete = true ∧
-      T.root = some n ∧ nodeLogged? n = fromMessages u [1] msgs |>.toOption := by
+      T.root = some n ∧ nodeLogged? n = (fromMessages u [1] msgs).toOption := by
   have horder := hI.order _ he
   simp only [tmsgs] at horder
   obtain ⟨T, hp, hc, hr⟩ := C09.reconstruct u a sb eb ok kids (msgs.filter fun m => m.uuid == u)
@@ -296,6 +239,99 @@ theorem parser_task_same {msgs : List PMsg} {ts : Spec} (hI : Interleaving msgs 
   have := fromMessages_node (hI.root he)
   simp only [List.nil_append] at this
   rw [hl, this]; rfl
+
+example : (parseStream (exMsgs.filter fun m => m.uuid == "u")).toOption.map
+      (·.map fun e => (e.1, e.2.root.bind nodeLogged?)) = some [("u", (fromMessages "u" [1] exMsgs).toOption)] := by rfl
+
+/-! ## any arrival order inside a task (delayed remote continuations) -/
+
+/-- **of_type_any_order**: with every task's messages in any order, `of_type` raises nothing and
+returns one entry per started message of the type, in emission order; the entry for start message `m`
+is `toLoggedIn msgs` of the spec sub-action `(t', lvl)` of some task `(u, t)` that `m` starts: its own
+start and end message and exactly its direct children, each once, ordered by emission, recursively —
+the parser's sub-tree `toLogged u t' lvl` up to the order of children (`Sim`). -/
+theorem of_type_any_order {msgs : List PMsg} {ts : Spec} (hI : PInterleaving msgs ts) (ty : String) :
+    ∃ as, ofType msgs ty = .ok as ∧
+      as.map LItem.first = msgs.filter (isStartOf ty) ∧
+      ∀ x ∈ as, ∃ u t lvl a sb eb ok kids, (u, t) ∈ ts ∧
+        (Tree.node a sb eb ok kids, lvl) ∈ pre t [] ∧ a = ty ∧
+        x = toLoggedIn msgs u (.node a sb eb ok kids) lvl ∧
+        x.first = startMsg u lvl a sb ∧
+        x.children.Perm (toLoggedInF msgs u kids lvl 2) ∧
+        Sim x (toLogged u (.node a sb eb ok kids) lvl) := by
+  have hstarted : ∀ m ∈ msgs, m.status = some "started" →
+      ∃ u t lvl a sb eb ok kids, (u, t) ∈ ts ∧ (Tree.node a sb eb ok kids, lvl) ∈ pre t [] ∧
+        PCtx msgs u (.node a sb eb ok kids) lvl ∧ m = startMsg u lvl a sb := by
+    intro m hm hst
+    obtain ⟨⟨u, t⟩, he, _, hmem⟩ := hI.mem_tmsgs hm
+    cases t with
+    | leaf b =>
+      simp only [tmsgs, List.mem_cons, List.not_mem_nil, or_false] at hmem
+      subst hmem; simp [leafMsg] at hst
+    | node a sb eb ok kids =>
+      obtain ⟨lvl', a', sb', eb', ok', kids', h1, h2, h3⟩ :=
+        started_in_tree_any u _ msgs [] (hI.root he) m hmem hst
+      exact ⟨u, _, lvl', a', sb', eb', ok', kids', he, h3, h1, h2⟩
+  have hok : ofType msgs ty = .ok ((msgs.filter (isStartOf ty)).map (actOf msgs)) := by
+    apply ofTypeGo_ok
+    · intro m hm hs
+      have hst : m.status = some "started" := by
+        simp only [isStartOf, Bool.and_eq_true, beq_iff_eq] at hs; exact hs.2
+      obtain ⟨u, t, lvl, a, sb, eb, ok, kids, _, _, hctx, rfl⟩ := hstarted m hm hst
+      exact ⟨_, fromMessages_node_any hctx⟩
+    · intro m hm hty
+      obtain ⟨⟨u, t⟩, _, _, hmem⟩ := hI.mem_tmsgs hm
+      have hsh : m.Shaped u := by
+        cases t with
+        | leaf b =>
+          simp only [tmsgs, List.mem_cons, List.not_mem_nil, or_false] at hmem
+          subst hmem; simp [PMsg.Shaped, leafMsg]
+        | node a sb eb ok kids => exact Tree.msgs_shape u _ [] m hmem
+      rcases hsh.2 with h | h
+      · rw [hty] at h; cases h
+      · intro hn; rw [hn] at h; simp at h
+  have hfacts : ∀ m ∈ msgs.filter (isStartOf ty), ∃ u t lvl a sb eb ok kids, (u, t) ∈ ts ∧
+      (Tree.node a sb eb ok kids, lvl) ∈ pre t [] ∧ a = ty ∧ PCtx msgs u (.node a sb eb ok kids) lvl ∧
+      m = startMsg u lvl a sb := by
+    intro m hm
+    obtain ⟨h1, h2⟩ := List.mem_filter.mp hm
+    simp only [isStartOf, Bool.and_eq_true, beq_iff_eq] at h2
+    obtain ⟨u, t, lvl, a, sb, eb, ok, kids, he, hpre, hctx, rfl⟩ := hstarted m h1 h2.2
+    refine ⟨u, t, lvl, a, sb, eb, ok, kids, he, hpre, ?_, hctx, rfl⟩
+    have := h2.1; simp only [startMsg, Option.some.injEq] at this; exact this
+  refine ⟨_, hok, ?_, ?_⟩
+  · rw [List.map_map]
+    conv => rhs; rw [← List.map_id (msgs.filter (isStartOf ty))]
+    apply List.map_congr_left
+    intro m hm
+    obtain ⟨u, t, lvl, a, sb, eb, ok, kids, _, _, _, hctx, rfl⟩ := hfacts m hm
+    simp [actOf_node_any hctx, toLoggedIn, LItem.first]
+  · intro x hx
+    obtain ⟨m, hm, rfl⟩ := List.mem_map.mp hx
+    obtain ⟨u, t, lvl, a, sb, eb, ok, kids, he, hpre, hty, hctx, rfl⟩ := hfacts m hm
+    refine ⟨u, t, lvl, a, sb, eb, ok, kids, he, hpre, hty, actOf_node_any hctx, ?_, ?_, ?_⟩
+    · simp [actOf_node_any hctx, toLoggedIn, LItem.first]
+    · rw [actOf_node_any hctx]; exact children_perm hctx
+    · rw [actOf_node_any hctx]; exact sim_tree msgs u _ lvl hctx
+
+/- non-vacuity: the remote continuation at `[3]` of task `u` arrives after its later sibling `[4]` and
+even after the end `[5]` of its parent; the child action is listed after the message at `[4]`, while
+the parser's tree (`toLogged`) has it before. -/
+def exLate : List PMsg :=
+  [startMsg "u" [] "a" 0, leafMsg "u" [2] 1, startMsg "v" [] "b" 10, leafMsg "w" [1] 20, startMsg "v" [2] "a" 11,
+   endMsg "v" [2] "a" 12 true 2, leafMsg "u" [4] 7, endMsg "v" [] "b" 13 true 3, endMsg "u" [] "a" 8 true 5,
+   startMsg "u" [3] "a" 2, leafMsg "u" [3,2] 3, startMsg "u" [3,3] "b" 4, endMsg "u" [3,3] "b" 5 true 2,
+   endMsg "u" [3] "a" 6 false 4]
+example : PInterleaving exLate exSpec ∧ ¬ Interleaving exLate exSpec :=
+  ⟨⟨by decide, by decide⟩, fun h => absurd (h.order ("u", A0) (by simp [exSpec])) (by decide)⟩
+example : ofType exLate "a" = .ok [toLoggedIn exLate "u" A0 [], toLoggedIn exLate "v" B1 [2], toLoggedIn exLate "u" A1 [3]] := by rfl
+example : (toLoggedIn exLate "u" A0 []).children = [.msg (leafMsg "u" [2] 1), .msg (leafMsg "u" [4] 7), toLogged "u" A1 [3]] ∧
+    (toLogged "u" A0 []).children = [.msg (leafMsg "u" [2] 1), toLogged "u" A1 [3], .msg (leafMsg "u" [4] 7)] :=
+  ⟨by rfl, by rfl⟩
+/- the parser, fed the late order, still builds the level-ordered trees (`parser_builds_same` holds for `PInterleaving`) -/
+example : (parseStream exLate).toOption.map (·.map fun e => (e.1, e.2.isComplete, e.2.root.bind nodeLogged?)) =
+    some [("w", true, some (rootLogged "w" (.leaf 20))), ("v", true, some (rootLogged "v" B0)),
+          ("u", true, some (rootLogged "u" A0))] := by rfl
 
 /-- **descendants_preorder**: `descendants()` of the `LoggedAction` of any spec (sub-)tree is the
 pre-order enumeration of its proper sub-trees (children left to right, each followed by its own
@@ -311,6 +347,11 @@ theorem descendants_preorder (u : String) (t : Tree) (lvl : Level) :
   rw [h1, List.map_map, ← pre_first u t lvl, ← List.map_tail]
   rfl
 
+example : ((toLogged "u" A0 []).descendants).map (·.first.body) = [1, 2, 3, 4, 7] := by decide
+example : (toLogged "u" A0 []).descendants =
+    [.msg (leafMsg "u" [2] 1), toLogged "u" A1 [3], .msg (leafMsg "u" [3, 2] 3), toLogged "u" A2 [3, 3],
+     .msg (leafMsg "u" [4] 7)] := by rfl
+
 /-- **type_tree_preorder**: `type_tree()` of the `LoggedAction` of a spec tree is the spec tree with
 every action replaced by its `action_type` and every message by its `message_type` (raising
 `KeyError` exactly when some child message has no `message_type`), children in the same order; its
@@ -323,6 +364,11 @@ theorem type_tree_preorder (info : Nat → Info) (u : String) (t : Tree) (lvl : 
   rw [typeTree_toLogged] at h
   exact typeTreeS_labels info t lvl tt h
 
+example : typeTree exInfo (toLogged "u" A0 []) =
+    .ok (.node "a" [.leaf "m1", .node "a" [.leaf "m2", .node "b" []], .leaf "m1"]) := by rfl
+example : (TT.node "a" [.leaf "m1", .node "a" [.leaf "m2", .node "b" []], .leaf "m1"]).labels =
+    ["a", "m1", "a", "m2", "b", "m1"] := by decide
+
 /-- **logged_message_of_type** (every message list): exactly the messages whose `message_type` is
 `ty`, in order, as `LoggedMessage`s. -/
 theorem logged_message_of_type (info : Nat → Info) (ty : String) (msgs : List PMsg) :
@@ -330,7 +376,9 @@ theorem logged_message_of_type (info : Nat → Info) (ty : String) (msgs : List 
   induction msgs with
   | nil => rfl
   | cons m ms ih =>
-    cases h : (info m.body).mtype == some ty <;> simp [lmOfType, List.filter_cons, h, ih]
+    cases h : (info m.body).mtype == some ty <;> simp [lmOfType, h, ih]
+
+example : lmOfType exInfo "m1" exMsgs = [.msg (leafMsg "u" [2] 1), .msg (leafMsg "u" [4] 7)] := by rfl
 
 /-- **assert_has_action_iff** (every message list, every table of dictionaries): `assertHasAction`
 returns `a` iff `of_type` returns a non-empty list whose *first* entry is `a`, `a.succeeded` is the
@@ -355,28 +403,30 @@ theorem assert_has_action_iff (info : Nat → Info) (hinfo : ∀ b, ((info b).fi
         simp [LItem.isAct] at this
       | act s e ch =>
         simp only [containsFields_eq_issuperset _ _ (hinfo _)]
-        by_cases h1 : (e.status == some "succeeded") = succeeded
-        · cases h2 : issuperset (info s.body).fields startFields
-          · simp [h1]
-          · cases h3 : issuperset (info e.body).fields endFields
-            · simp [h1]
-            · simp only [h1, bne_self_eq_false, Bool.false_eq_true, ↓reduceIte, Bool.not_true,
-                Except.ok.injEq, List.cons.injEq, LItem.act.injEq]
-              constructor
-              · intro h; subst h; exact ⟨s, e, ch, rest, rfl, ⟨⟨rfl, rfl, rfl⟩, rfl⟩, rfl, rfl, rfl⟩
-              · rintro ⟨s', e', ch', rest', rfl, ⟨⟨rfl, rfl, rfl⟩, rfl⟩, _⟩; rfl
-        · have : ((e.status == some "succeeded") != succeeded) = true := by simpa using h1
-          simp only [this, ↓reduceIte, reduceCtorEq, Except.ok.injEq, List.cons.injEq, LItem.act.injEq,
-            false_iff, not_exists, not_and]
-          rintro s' e' ch' rest' _ ⟨⟨_, rfl, _⟩, _⟩ h
-          exact absurd h h1
+        constructor
+        · intro h
+          split at h
+          · simp at h
+          · split at h
+            · simp at h
+            · split at h
+              · simp at h
+              · rename_i h1 h2 h3
+                simp only [Except.ok.injEq] at h
+                exact ⟨s, e, ch, rest, h.symm, rfl, by simpa using h1, by simpa using h2, by simpa using h3⟩
+        · rintro ⟨s', e', ch', rest', rfl, heq, h1, h2, h3⟩
+          simp only [Except.ok.injEq, List.cons.injEq, LItem.act.injEq] at heq
+          obtain ⟨⟨rfl, rfl, rfl⟩, rfl⟩ := heq
+          simp [h1, h2, h3]
 
-/-- every failure of `assertHasAction` when `of_type` raises nothing: which assertion fails -/
-theorem assert_has_action_failure (info : Nat → Info) (msgs : List PMsg) (ty : String) (succeeded : Bool)
-    (startFields endFields : Fields) :
-    ofType msgs ty = .ok [] →
-      assertHasAction info msgs ty succeeded startFields endFields = .error .noneOfType := by
-  intro h; simp [assertHasAction, h]
+/- the first entry of type `a` is `A0` (x = 1, succeeded); the second one (`A1`: x = 9, failed) is
+never consulted -/
+example : assertHasAction exInfo exMsgs "a" true [("x", "1")] [("r", "ok")] = .ok (toLogged "u" A0 []) := by rfl
+example : assertHasAction exInfo exMsgs "a" false [] [] = .error .wrongStatus := by rfl
+example : assertHasAction exInfo exMsgs "a" true [("x", "9")] [] = .error .startFields := by rfl
+example : assertHasAction exInfo exMsgs "a" true [("x", "1"), ("z", "0")] [] = .error .startFields := by rfl
+example : assertHasAction exInfo exMsgs "a" true [] [("r", "no")] = .error .endFields := by rfl
+example : assertHasAction exInfo exMsgs "zz" true [] [] = .error .noneOfType := by rfl
 
 /-- **assert_has_message_iff** (every message list): `assertHasMessage` returns `a` iff `a` is the
 *first* message of the type and it has a superset of the expected fields. -/
@@ -399,5 +449,10 @@ theorem assert_has_message_iff (info : Nat → Info) (hinfo : ∀ b, ((info b).f
       constructor
       · intro e; exact ⟨m, e.symm, rfl, h⟩
       · rintro ⟨m', rfl, rfl, _⟩; rfl
+
+example : assertHasMessage exInfo exMsgs "m1" [("k", "5")] = .ok (.msg (leafMsg "u" [2] 1)) := by rfl
+example : assertHasMessage exInfo exMsgs "m1" [("k", "6")] = .error .fields := by rfl
+example : assertHasMessage exInfo exMsgs "m2" [("k", "5")] = .error .fields := by rfl
+example : assertHasMessage exInfo exMsgs "zz" [] = .error .noneOfType := by rfl
 
 end PM.C17
